@@ -4,7 +4,8 @@ LEVEL = "model_checking"
 JUDGE = "Judge_Filter"
 RULE = ("TLC enumerates every atom (column, operator, literal) of MC_C02!Atoms over world W2 (14 entries realising the "
         "literal values and their neighbours); each atom is one run `select path from '.' where <atom>`; Judge_Filter "
-        "accepts iff Must(atom) <= rows <= Must+May under Eval.tla. Non-trivial = the atom is true of some but not all entries.")
+        "accepts iff Must(atom) <= rows <= Must+May under Eval.tla. Non-trivial = the atom is true of some but not all entries. "
+        "A second generator (MC_C02r) draws pseudo-random trees from WorldRnd (quick 2, thorough 24) and compares every int / text / date column with literals taken from that tree's own values and their neighbours v-1, v+1.")
 ASSUMPTIONS = ["lstat values recorded by the driver are the entry's real attributes",
                "rows are identified by the path text './'+relative path (root '.' and cwd = world top)"]
 
